@@ -371,7 +371,7 @@ class Translator:
             return Val(v.code, ty, v.eff)
         if ty[0] == "opt":
             if v.ty == NONE:
-                return Val("None", ty, v.eff)
+                return Val(f"(@None {coq_ty(ty[1])})" if ty[1] != UNKNOWN else "None", ty, v.eff)
             if v.ty[0] != "opt":
                 inner = self.coerce(v, ty[1], ctx)
                 return self.lift([inner], lambda c: Val(f"(Some {c[0]})", ty))
@@ -399,6 +399,9 @@ class Translator:
         if v.ty == ANY and ty == List(ANY):
             self.cur.intrinsic_eff = True
             return self.lift([v], lambda c: Val(f"(match {c[0]} with VList l => Ok l | _ => Err TypeError end)", List(ANY), True))
+        if v.ty == ANY and ty == STR:
+            self.cur.intrinsic_eff = True
+            return self.lift([v], lambda c: Val(f"(match {c[0]} with VStr s => Ok s | _ => Err TypeError end)", STR, True))
         if v.ty == ANY and ty == FLOAT:
             self.cur.intrinsic_eff = True
             return self.lift([v], lambda c: Val(f"(match {c[0]} with VFloat r => Ok r | _ => Err TypeError end)", FLOAT, True))
@@ -495,6 +498,9 @@ class Translator:
             if e.attr in FTYPE_MEMBERS:
                 return Val(FTYPE_MEMBERS[e.attr], FTYPE)
             fail(e, "unknown FeatureType member")
+        if (e.attr == "value" and isinstance(e.value, ast.Attribute) and isinstance(e.value.value, ast.Name)
+                and e.value.value.id == "ASTOperation" and e.value.attr in ASTOPS):
+            return Val(f"(astop_value {e.value.attr})", STR)
         if (e.attr == "value" and isinstance(e.value, ast.Attribute) and isinstance(e.value.value, ast.Name)
                 and e.value.value.id in self.enums):
             members = self.enums[e.value.value.id]
@@ -635,6 +641,10 @@ class Translator:
             b, tb = self.coerce(b, INT, ctx), INT
         if ta == BOOL and tb == INT:
             a, ta = self.coerce(a, INT, ctx), INT
+        if ta == ANY and tb == STR:
+            return self.lift([a, b], lambda c: Val(f"(match {c[0]} with VStr s => String.eqb s {c[1]} | _ => false end)", BOOL))
+        if ta == STR and tb == ANY:
+            return self.lift([a, b], lambda c: Val(f"(match {c[1]} with VStr s => String.eqb {c[0]} s | _ => false end)", BOOL))
         if INTSTR in (ta, tb) and {ta, tb} <= {INTSTR, INT}:
             a, b = self.coerce(a, INTSTR, ctx), self.coerce(b, INTSTR, ctx)
             return self.lift([a, b], lambda c: Val(f"(String.eqb {c[0]} {c[1]})", BOOL))
@@ -954,6 +964,16 @@ class Translator:
                 # a combination (a tuple in Python) is a list here
                 self.cur.intrinsic_eff = True
                 return self.lift([l, k], lambda c: Val(f"(py_combinations {c[0]} {c[1]})", List(l.ty), True))
+            if isinstance(fn.value, ast.Name) and fn.value.id == "functools" and fn.attr == "reduce" and len(e.args) == 2 \
+                    and isinstance(e.args[0], ast.Lambda) and len(e.args[0].args.args) == 2:
+                lam = e.args[0]
+                l = self.arg_list(e.args[1], env)
+                a1, a2 = self.fresh(lam.args.args[0].arg + "_"), self.fresh(lam.args.args[1].arg + "_")
+                body = self.tr(lam.body, env.bind(lam.args.args[0].arg, a1, l.ty[1]).bind(lam.args.args[1].arg, a2, l.ty[1]))
+                if body.eff or body.ty != l.ty[1]:
+                    fail(e, "reduce() with a function that can raise or changes the type")
+                self.cur.intrinsic_eff = True
+                return self.lift([l], lambda c: Val(f"(py_reduce (fun {a1} {a2} => {body.code}) {c[0]})", l.ty[1], True))
             if isinstance(fn.value, ast.Name) and fn.value.id == "re" and fn.attr == "fullmatch" and len(e.args) == 2 \
                     and isinstance(e.args[0], ast.Constant) and e.args[0].value == "[A-Za-z][A-Za-z0-9_]*":
                 v = self.coerce(self.tr(e.args[1], env), STR, e)
@@ -1046,6 +1066,19 @@ class Translator:
             vs = [self.coerce(self.tr(a, env), t, e) for a, t in zip(args, ptys)]
             self.cur.intrinsic_eff = True
             return self.lift(vs, lambda c: Val(tmpl.format(*c), rty, True))
+        if name == "Node" and 1 <= len(args) <= 3:
+            d = self.tr(args[0], env)
+            if d.ty == ASTOP:
+                dv = self.lift([d], lambda c: Val(f"(DOp {c[0]})", NDATA))
+            elif d.ty == ANY:
+                # Node(<a JSON value>): a string, a number or a Boolean as term data; anything else is rejected before
+                self.cur.intrinsic_eff = True
+                dv = self.lift([d], lambda c: Val(f"(py_ndata_of_any {c[0]})", NDATA, True))
+            else:
+                dv = self.coerce(d, NDATA, e)
+            kids = [self.coerce(self.tr(a, env), NODE, e) for a in args[1:]]
+            return self.lift([dv] + kids, lambda c: Val(
+                f"(Node {c[0]} " + " ".join(f"(Some {x})" for x in c[1:]) + " None" * (2 - len(c[1:])) + ")", NODE))
         if name == "Constraint" and len(args) == 2:
             n = self.coerce(self.tr(args[0], env), STR, e)
             a = self.coerce(self.tr(args[1], env), NODE, e)
@@ -1183,6 +1216,8 @@ class Translator:
                 return Val("true", BOOL)
             if v.ty == ANY and ast.unparse(t) in ("(list, tuple)", "list"):
                 return self.lift([v], lambda c: Val(f"(match {c[0]} with VList _ => true | _ => false end)", BOOL))
+            if v.ty == ANY and ast.unparse(t) == "(list, dict)":
+                return self.lift([v], lambda c: Val(f"(match {c[0]} with VList _ | VMap _ => true | _ => false end)", BOOL))
             if v.ty == ANY and ast.unparse(t) == "dict":
                 return self.lift([v], lambda c: Val(f"(match {c[0]} with VMap _ => true | _ => false end)", BOOL))
             if v.ty == NDATA and isinstance(t, ast.Name) and t.id == "str":
@@ -1320,7 +1355,7 @@ class Translator:
 
     def s_Raise(self, s, rest, env, k):
         if isinstance(s.exc, ast.Call) and isinstance(s.exc.func, ast.Name) and s.exc.func.id in (
-                "FlamaException", "TypeError", "ValueError"):
+                "FlamaException", "TypeError", "ValueError", "ParsingException"):
             self.cur.intrinsic_eff = True
             return f"(Err {s.exc.func.id})"
         fail(s, "unsupported raise")
@@ -1698,8 +1733,8 @@ class Translator:
         en_after.loop_k = env.loop_k
         en_after.leaked |= self.leaks(s, names, env)
         after = self.block(rest, en_after, k)
-        loop = f"(foldM (fun {spat} {xpat} => {body}) {{0}} {self.state_tuple(names, env)})"
-        return self.wrap(src, lambda c: f"(bind {loop.format(c)} (fun {apat} => {after}))")
+        loop = f"(foldM (fun {spat} {xpat} => {body}) @@SRC@@ {self.state_tuple(names, env)})"
+        return self.wrap(src, lambda c: "(bind " + loop.replace("@@SRC@@", c) + f" (fun {apat} => {after}))")
 
     def s_While(self, s, rest, env, k):
         if s.orelse:
@@ -2232,6 +2267,9 @@ UNITS = [
     {"name": "glencoe", "imports": " Gen.Src_fm Gen.Tables_glencoe",
      "files": [("transformations/glencoe_writer.py", {},
                 ["_to_json", "_get_features_info", "_get_tree_info", "_get_constraints_info", "_get_ctc_info"])]},
+    {"name": "jsonr", "imports": " Gen.Src_fm",
+     "files": [("transformations/json_writer.py", {}, []),
+               ("transformations/json_reader.py", {}, ["parse_constraints", "parse_ast_constraint"])]},
     {"name": "json", "imports": " Gen.Src_fm",
      "files": [("transformations/json_writer.py", {},
                 ["to_json", "get_tree_info", "get_attributes_info", "get_constraints_info", "get_ctc_info"])]},
